@@ -30,6 +30,9 @@ REPO = '/repo'
 def detect(seed):
     # SEED_EVAL_REPO=<scratch worktree of /repo at HEAD>: used while something else (the stable suite) runs in /repo
     R = os.environ.get('SEED_EVAL_REPO', REPO)
+    if R != REPO:  # keep the scratch worktree at /repo's HEAD
+        head = sh('git -C /repo rev-parse HEAD')[1].strip()
+        sh(f'git -C {R} reset -q --hard ; git -C {R} checkout -q --detach {head}')
     rc, out = sh(f'git -C {R} apply --check {seed}/patch.diff')
     mode = ''
     if rc != 0:
